@@ -57,6 +57,8 @@ struct cfg {
     int maxlen;
     int dyn[2];    /* storage kind of A, B */
     size_t n0[2];  /* initial allocation (dynamic) or fixed capacity (static), in items */
+    int ambient;   /* every operation starts with AWS_ERROR_INVALID_INDEX as the thread's last error: the leftover of an earlier, handled
+                      failure (the value the list itself raises, and the one push_back / push_front look for after a failed set_at) */
 };
 static struct cfg g;
 
@@ -383,6 +385,7 @@ static void m_apply(int o) {
     bool dyn = g.dyn[l];
     snapshot();
     aws_reset_error();
+    if (g.ambient) aws_raise_error(AWS_ERROR_INVALID_INDEX);
     switch (p->kind) {
         case O_PUSH_BACK:
         case O_PUSH_FRONT: {
@@ -673,9 +676,11 @@ static const char *store_name(int dyn, size_t n0, char *buf, size_t cap) {
 static int g_rc;
 static int g_light; /* --light: the Debug-build pass of the thorough tier uses one length bound lower */
 static const char *g_only; /* --only <substring>: developer aid, restricts a run to matching configurations */
+static int g_next_ambient;
 static void run_cfg(size_t item, int two, int maxlen, int dynA, size_t nA, int dynB, size_t nB, bool in_tier) {
     char sa[24], sb[24];
     memset(&g, 0, sizeof(g));
+    g.ambient = g_next_ambient;
     g.item = item;
     g.two = two;
     g.maxlen = maxlen;
@@ -687,6 +692,7 @@ static void run_cfg(size_t item, int two, int maxlen, int dynA, size_t nA, int d
         snprintf(g.name, sizeof(g.name), "al2-i%zu-A%s-B%s-m%d", item, store_name(dynA, nA, sa, sizeof(sa)), store_name(dynB, nB, sb, sizeof(sb)), maxlen);
     else
         snprintf(g.name, sizeof(g.name), "al1-i%zu-%s-m%d", item, store_name(dynA, nA, sa, sizeof(sa)), maxlen);
+    if (g.ambient) strncat(g.name, "-ambient", sizeof(g.name) - strlen(g.name) - 1);
     model.name = g.name;
     build_alphabet();
     if (v_replay_token) {
@@ -733,6 +739,13 @@ int main(int argc, char **argv) {
                     in_tier = init12 ? (m == 3 && small_item) : (m == 4 && (small_item || s != 3));
                 run_cfg(items[i], 0, m, st1[s].dyn, st1[s].n0, 0, 0, in_tier);
             }
+    /* the same with a stale AWS_ERROR_INVALID_INDEX in the thread's last-error slot before every operation (added after a seeded
+     * change that made push_back consult aws_last_error() without looking at set_at's return code): 8-byte items, the growing
+     * dynamic list and both static ones */
+    g_next_ambient = 1;
+    for (int s = 0; s < 5; ++s)
+        if (s == 0 || s == 3 || s == 4) run_cfg(8, 0, th ? MAXLEN_MAX : 4, st1[s].dyn, st1[s].n0, 0, 0, true);
+    g_next_ambient = 0;
     /* family 2: two lists */
     static const struct {
         int dyn;
